@@ -43,7 +43,9 @@ def models(tier):
     # several requests in one network read: each answer must still say what was wrong with *its* request
     out.append(monitors.ScenarioModel("requests-in-one-read", CFG3,
                                       [("b", 0, a, b) for a in ("rq:3:own:missing", "rq:3:own", "rq:9:own", "rq:3:foreign:missing")
-                                       for b in ("rq:3:own:missing", "rq:3:own", "rq:4:r2", "rq:3:own:alias")] + [("ans", 0), ("ans", 1)],
+                                       for b in ("rq:3:own:missing", "rq:3:own", "rq:4:r2", "rq:3:own:alias")] + [("ans", 0), ("ans", 1)] +
+                                      # a read that ends 28 bytes into the next request: the request in front of it is handled once
+                                      [("mcut", 0, a, b) for a, b in (("rq:3:own", "rq:4:r2"), ("rq:3:own", "rq:3:own:missing"), ("rq:9:own", "rq:3:own"))],
                                       MONS, max_socks=1, prelude=[("accept",), ("m", 0, "cer_p0")]))
     two = copy.deepcopy(CFG3)
     two["apps"] = [{"id": 3, "acct": True, "peers": [0, 1]}, {"id": 4, "auth": True, "peers": [1]}]
@@ -57,6 +59,14 @@ def models(tier):
     xr["apps"] = [{"id": 4, "auth": True, "peers": [0, 1], "realms": ["realm2.example"]}, {"id": 3, "acct": True, "peers": [1, 0], "realms": ["realm2.example"]}]
     out.append(monitors.ScenarioModel("two-peers-additional-realm", xr,
                                       [("m", c, n) for c in (0, 1) for n in ("rq:4:own", "rq:4:r2", "rq:3:r2", "rq:3:own", "rq:4:foreign")] + [("ans", 0), ("send", 0, "r2")],
+                                      MONS, max_socks=2, prelude=[("accept",), ("m", 0, "cer_p0"), ("accept",), ("m", 1, "cer_p1")]))
+    # one application whose two peers live in two realms, plus an additional realm: each peer is served for its own realm and for the
+    # additional one, not for the other peer's realm
+    xr2 = copy.deepcopy(CFG3)
+    xr2["peers"][1]["realm"] = "realm2.example"
+    xr2["apps"] = [{"id": 3, "acct": True, "peers": [0, 1], "realms": ["realm3.example"]}, {"id": 4, "auth": True, "peers": [1, 0], "realms": ["realm3.example"]}]
+    out.append(monitors.ScenarioModel("peers-of-two-realms-and-an-additional-realm", xr2,
+                                      [("m", c, n) for c in (0, 1) for n in ("rq:3:own", "rq:3:r2", "rq:3:r3", "rq:4:own", "rq:4:r2", "rq:3:foreign")] + [("ans", 0)],
                                       MONS, max_socks=2, prelude=[("accept",), ("m", 0, "cer_p0"), ("accept",), ("m", 1, "cer_p1")]))
     # long silences between requests (per-peer bookkeeping that ages out must not cost a request)
     ls = copy.deepcopy(CFG3)
